@@ -6,7 +6,8 @@ C17 — index- and query-time analysis agree: documents are findable by their ow
 
 Model: `WM/Model/Analysis.lean`.  The theorems cover the analyzers built from the shipped
 regular-expression tokenizers (default pattern, space separated, comma separated), `IDTokenizer`,
-`NgramTokenizer` and the filters Lowercase / Strip / Pass / Stop / Ngram / BiWord; every other
+`NgramTokenizer` and the filters Lowercase / Strip / Pass / Stop / Ngram / BiWord / text-rewriting /
+Stem / Multi / DelimitedAttribute; every other
 shipped analyzer is covered by the end-to-end relation test only (level `other`).
 -/
 namespace WM.C17
@@ -20,7 +21,7 @@ def Filter.wordwise : Filter → Bool
 /-- ... and, for the statement about positions, drop stopped tokens (`removestops=True`, the
     setting used for indexing and for query-time analysis) -/
 def Filter.dropsStops : Filter → Bool
-  | .lowercase | .strip | .pass | .mapText _ | .stem .. => true
+  | .lowercase | .strip | .pass | .mapText _ | .stem .. | .delimited _ => true
   | .stop c => c.removestops
   | .multi a b => Filter.dropsStops a && Filter.dropsStops b
   | _ => false
@@ -96,6 +97,7 @@ theorem inv_step (tb : Tables) (mode : Mode) (text : List CChar) (g : Str → St
       exact ⟨this.1, this.2.1, by simp [stepText, this.2.2]⟩
   | stem fn ig => simp [Filter.wordwise] at hf
   | multi a b => simp [Filter.wordwise] at hf
+  | delimited d => simp [Filter.wordwise] at hf
 
 theorem inv_chain (tb : Tables) (mode : Mode) (text : List CChar) (fs : List Filter)
     (hfs : ∀ f ∈ fs, Filter.wordwise f = true) (g : Str → Str) (ts : List Token) (h : Inv text g ts) :
@@ -119,6 +121,126 @@ theorem offsets (tb : Tables) (p : Pat) (fs : List Filter) (mode : Mode) (text :
   have := inv_chain tb mode text fs hfs id (regexTokenizer p text) (inv_tokenizer p text)
   exact ⟨this.spans, this.tok⟩
 
+/-- `Inv` with `startchar ≤ endchar`: a `DelimitedAttributeFilter` may leave a token with an empty
+    text and an empty character range (`"::x"`) -/
+structure InvW (text : List CChar) (g : Str → Str) (ts : List Token) : Prop where
+  spans : List.Pairwise (fun a b : Token => a.endchar ≤ b.startchar) ts
+  tok : ∀ t ∈ ts, t.startchar ≤ t.endchar ∧ t.endchar ≤ text.length ∧
+          t.text = g ((slice text t.startchar t.endchar).map (·.code))
+
+theorem invw_step (tb : Tables) (mode : Mode) (text : List CChar) (g : Str → Str) (f : Filter)
+    (hf : Filter.wordwise f = true) (ts : List Token) (h : InvW text g ts) :
+    InvW text (stepText tb f ∘ g) (runFilter tb mode f ts) := by
+  cases f with
+  | lowercase =>
+    constructor
+    · simp only [runFilter, lowercase]
+      exact List.Pairwise.map _ (fun a b hab => hab) h.spans
+    · intro t ht
+      simp only [runFilter, lowercase, List.mem_map] at ht
+      obtain ⟨t0, ht0, rfl⟩ := ht
+      have := h.tok t0 ht0
+      exact ⟨this.1, this.2.1, by simp [stepText, this.2.2]⟩
+  | strip =>
+    constructor
+    · simp only [runFilter, strip]
+      exact List.Pairwise.map _ (fun a b hab => hab) h.spans
+    · intro t ht
+      simp only [runFilter, strip, List.mem_map] at ht
+      obtain ⟨t0, ht0, rfl⟩ := ht
+      have := h.tok t0 ht0
+      exact ⟨this.1, this.2.1, by simp [stepText, this.2.2]⟩
+  | pass => exact ⟨h.spans, fun t ht => by simpa [stepText] using h.tok t ht⟩
+  | stop c =>
+    constructor
+    · exact stopFilter_pairwise_span (fun _ e s _ => e ≤ s) c ts none h.spans
+    · intro t ht
+      obtain ⟨y, hy, e1, e2, e3, _⟩ := mem_stopFilter ht
+      have := h.tok y hy
+      rw [← e1, ← e2, ← e3]
+      simpa [stepText] using this
+  | ngram a b at_ => simp [Filter.wordwise] at hf
+  | biword sep => simp [Filter.wordwise] at hf
+  | mapText fn =>
+    constructor
+    · simp only [runFilter, mapText]
+      exact List.Pairwise.map _ (fun a b hab => hab) h.spans
+    · intro t ht
+      simp only [runFilter, mapText, List.mem_map] at ht
+      obtain ⟨t0, ht0, rfl⟩ := ht
+      have := h.tok t0 ht0
+      exact ⟨this.1, this.2.1, by simp [stepText, this.2.2]⟩
+  | stem fn ig => simp [Filter.wordwise] at hf
+  | multi a b => simp [Filter.wordwise] at hf
+  | delimited d => simp [Filter.wordwise] at hf
+
+theorem invw_chain (tb : Tables) (mode : Mode) (text : List CChar) (fs : List Filter)
+    (hfs : ∀ f ∈ fs, Filter.wordwise f = true) (g : Str → Str) (ts : List Token) (h : InvW text g ts) :
+    InvW text (fs.foldl (fun g f => stepText tb f ∘ g) g) (fs.foldl (fun ts f => runFilter tb mode f ts) ts) := by
+  induction fs generalizing g ts with
+  | nil => exact h
+  | cons f fs ih =>
+    simp only [List.foldl_cons]
+    exact ih (fun f' hf' => hfs f' (by simp [hf'])) _ _ (invw_step tb mode text g f (hfs f (by simp)) ts h)
+
+/-- the step of `DelimitedAttributeFilter` right behind the tokenizer: the shortened text is the
+    source text of the shortened character range -/
+theorem invw_delimited (tb : Tables) (mode : Mode) (text : List CChar) (d : Str) (ts : List Token)
+    (h : Inv text id ts) : InvW text id (runFilter tb mode (.delimited d) ts) := by
+  constructor
+  · simp only [runFilter, delimited]
+    refine List.Pairwise.map _ (fun a b hab => ?_) h.spans
+    split <;> split <;> first | omega | (dsimp only; omega)
+  · intro t ht
+    simp only [runFilter, delimited, List.mem_map] at ht
+    obtain ⟨t0, ht0, rfl⟩ := ht
+    obtain ⟨h1, h2, h3⟩ := h.tok t0 ht0
+    split
+    · rename_i p hp
+      have hp' := findSub_le _ _ _ hp
+      have hlen : t0.text.length = t0.endchar - t0.startchar := by
+        rw [h3]; simp [slice]; omega
+      have e : t0.endchar - (t0.text.length - p) = t0.startchar + p := by omega
+      refine ⟨by simp only [e]; omega, by simp only [e]; omega, ?_⟩
+      simp only [e, id]
+      rw [h3]
+      simp only [id, slice, ← List.map_take, List.take_take]
+      congr 2
+      omega
+    · exact ⟨by omega, h2, h3⟩
+
+/-- `C17.offsets_delimited`: for an analyzer made of one of the regular-expression tokenizers, a
+    `DelimitedAttributeFilter` with a delimiter of *any* length directly behind it, and then any
+    sequence of Lowercase / Strip / Pass / Stop / text-rewriting filters: every token's character
+    offsets delimit its source (`text[startchar:endchar]`, transformed by the chain's text
+    functions, is the token's text - the delimiter and the attribute are outside the range),
+    `startchar ≤ endchar ≤ len(text)` (a token that begins with the delimiter is empty), and the
+    tokens do not overlap. -/
+theorem offsets_delimited (tb : Tables) (p : Pat) (d : Str) (fs : List Filter) (mode : Mode) (text : List CChar)
+    (hfs : ∀ f ∈ fs, Filter.wordwise f = true) :
+    List.Pairwise (fun a b : Token => a.endchar ≤ b.startchar)
+      (analyze tb (.regex p) (.delimited d :: fs) mode text) ∧
+    ∀ t ∈ analyze tb (.regex p) (.delimited d :: fs) mode text,
+      t.startchar ≤ t.endchar ∧ t.endchar ≤ text.length ∧
+      t.text = textFun tb fs ((slice text t.startchar t.endchar).map (·.code)) := by
+  have h0 := invw_delimited tb mode text d (regexTokenizer p text) (inv_tokenizer p text)
+  have := invw_chain tb mode text fs hfs id _ h0
+  exact ⟨this.spans, this.tok⟩
+
+/-- instance: `"fox::noun x"` through `RegexTokenizer(r"\S+") | DelimitedAttributeFilter("::") |
+    LowercaseFilter()`: `fox` keeps the range 0..3 (not 0..4: the whole two-character delimiter is
+    outside), `x` is untouched; and `"::x"` leaves an empty token with the empty range 0..0 -/
+example :
+    let tb : Tables := { lower := fun c => if 65 ≤ c ∧ c ≤ 90 then [c + 32] else [c], space := fun c => c = 32 }
+    let ch (c : Nat) : CChar := ⟨c, (65 ≤ c ∧ c ≤ 90) ∨ (97 ≤ c ∧ c ≤ 122), c = 32, tb.lower c⟩
+    analyze tb (.regex .nonspace) [.delimited [58, 58], .lowercase] .index
+        ([70, 111, 120, 58, 58, 110, 111, 117, 110, 32, 120].map ch)
+      = [{ text := [102, 111, 120], pos := 0, startchar := 0, endchar := 3 },
+         { text := [120], pos := 1, startchar := 10, endchar := 11 }]
+    ∧ analyze tb (.regex .nonspace) [.delimited [58, 58]] .index ([58, 58, 120].map ch)
+      = [{ text := [], pos := 0, startchar := 0, endchar := 0 }] := by
+  decide +kernel
+
 theorem pos_step (tb : Tables) (mode : Mode) (f : Filter) (hf : Filter.dropsStops f = true) (ts : List Token)
     (h : List.Pairwise (fun a b : Token => a.pos < b.pos) ts) :
     List.Pairwise (fun a b : Token => a.pos < b.pos) (runFilter tb mode f ts) := by
@@ -132,6 +254,10 @@ theorem pos_step (tb : Tables) (mode : Mode) (f : Filter) (hf : Filter.dropsStop
   | mapText fn => simp only [runFilter, mapText]; exact List.Pairwise.map _ (fun a b hab => hab) h
   | stem fn ig =>
     simp only [runFilter, stemFilter]
+    refine List.Pairwise.map _ (fun a b hab => ?_) h
+    split <;> split <;> exact hab
+  | delimited d =>
+    simp only [runFilter, delimited]
     refine List.Pairwise.map _ (fun a b hab => ?_) h
     split <;> split <;> exact hab
   | multi a b iha ihb =>
@@ -439,6 +565,7 @@ theorem textwise_mono (tb : Tables) (m1 m2 : Mode) (f : Filter) (hf : Filter.tex
   | biword sep => simp [Filter.textwise] at hf
   | stem fn ig => simp [Filter.textwise] at hf
   | multi a b => simp [Filter.textwise] at hf
+  | delimited d => simp [Filter.textwise] at hf
 
 theorem analyze_append (tb : Tables) (tk : Tokenizer) (fs gs : List Filter) (mode : Mode) (text : List CChar) :
     analyze tb tk (fs ++ gs) mode text = gs.foldl (fun ts f => runFilter tb mode f ts) (analyze tb tk fs mode text) := by
